@@ -449,9 +449,8 @@ def compareSimpleSchema (loc : Loc) : List Simple → List Simple → St → Out
     (if ne then
        ts (if s1.exmpl.isNone then Code.AddedExample else if s2.exmpl.isNone then Code.DeletedExample else Code.ChangedExample) st
      else .ok st).bind fun st =>
-    if s1.type = "array" then
-      if s2.type = "array" then compareSimpleSchema loc r1 r2 st
-      else ts Code.ChangedType st
+    -- a change between array and non-array is reported by CompareProps only (the duplicate entry was removed)
+    if s1.type = "array" && s2.type = "array" then compareSimpleSchema loc r1 r2 st
     else .ok st
 
 def title (s : String) : String :=
@@ -570,11 +569,10 @@ def analyseEndpointData (rev : Nat) (u1 u2 : List UM) (st : St) : St :=
 def findResp (l : List Response) (c : Nat) : Option Response := findBy (·.code) c l
 def findHeader (l : List Header) (nm : String) : Option Header := findBy (·.name) nm l
 
-/-- getSchemaDiffNode("Body", schema) where `schema : *spec.Schema` may be nil (a nil pointer inside a non-nil
-    interface): the node then carries no type. -/
+/-- node of an added / deleted response: `NoContent` without a body schema, else getSchemaDiffNode("Body", schema) -/
 def bodyNode (n : Nat) (os : Option Schema) : Outcome NodeSeg :=
   match os with
-  | none => .ok (nameNode "Body")
+  | none => .ok (nameNode "NoContent")
   | some s => nodeOfProps n "Body" s
 
 def analyseResponseParams (cx : Ctx) (n : Nat) (u1 u2 : List UM) (st : St) : Outcome St :=
